@@ -185,7 +185,9 @@ func (w *refWalker) dirSkipped(p string, gis []giPattern) bool {
 		}
 	}
 	if w.cfg.IgnoreSubDirs {
-		req := false
+		// "non-recursive mode: only the files in the top-level directory": without requested
+		// paths the top-level directory is the scan root
+		req := len(w.cfg.PathsToExtract) == 0 && p == "."
 		for _, q := range w.cfg.PathsToExtract {
 			if q == p {
 				req = true
